@@ -4,6 +4,7 @@ import (
 	"fmt"
 	"os"
 	"testing"
+	. "verifharness/hist"
 
 	"github.com/google/reftable"
 	"pgregory.net/rapid"
@@ -41,7 +42,7 @@ func genC13(t *rapid.T) c13Case {
 	c.Cfg = DrawStackCfg(t)
 	c.Cfg.SkipNameCheck = true
 	c.Auto = rapid.Bool().Draw(t, "auto")
-	o := TxOpts{Pool: safePool[:rapid.IntRange(1, 5).Draw(t, "npool")], MaxRefs: 2, MaxLogs: 5,
+	o := TxOpts{Pool: SafePool[:rapid.IntRange(1, 5).Draw(t, "npool")], MaxRefs: 2, MaxLogs: 5,
 		HashSize: c.Cfg.HashSize(), Exact: c.Cfg.Exact, DelWeight: 2, TimeMax: 20}
 	ntx := rapid.IntRange(3, 30).Draw(t, "ntx")
 	for i := 0; i < ntx; i++ {
